@@ -161,7 +161,7 @@ class ExcHierarchy:
 class Event:
     __slots__ = ("known", "handlers", "kind", "node", "func", "depth", "fterm", "args", "kwargs", "targets", "result",
                  "ext", "sched", "cb", "cbargs", "cbkwargs", "delay", "in_comp", "raised",
-                 "target", "value", "frame", "inlined", "recv", "seq", "attrname", "coro", "loopdepth", "helper")
+                 "target", "value", "frame", "inlined", "recv", "seq", "attrname", "coro", "loopdepth", "helper", "via_value")
 
     def __init__(self, kind, node, func, depth):
         self.kind = kind
@@ -185,6 +185,7 @@ class Event:
         self.value = None
         self.frame = ()
         self.inlined = False
+        self.via_value = False  # the callee was reached through a callable value (a bound method handed over as a callback)
         self.helper = None  # the unknown helper function analysed in place at this call (then targets is empty)
         self.recv = None
         self.seq = 0
@@ -475,6 +476,8 @@ class Policy:
         """exceptions a *non-inlined* raise point may raise"""
         if ev.kind == "load":
             return list(self.load_raises)
+        if ev.kind == "store":
+            return ["KeyError"] if ev.value == ("deleted",) else []
         if ev.kind == "await":
             return ["asyncio.CancelledError"] if self.cancel_at_await else []
         if ev.kind == "call":
@@ -1054,6 +1057,7 @@ class Engine:
                         e = self._event("store", tg, fi, depth, s)
                         e.target = ("item", b, i)
                         e.value = ("deleted",)
+                        self._raise_point(e, s, ch, tg)  # (a missing key / index)
                     elif isinstance(tg, ast.Name):
                         s.env.pop(tg.id, None)
 
@@ -2254,6 +2258,7 @@ class Engine:
                 s.env.update(saved)
                 return ({"list": "list", "set": "set", "gen": "tuple"}[kind], tuple(out))
         if kind == "list" and len(node.generators) == 1 and not node.generators[0].is_async \
+                and not getattr(self.policy, "comp_symbolic", False) \
                 and (_filter_calls_element_method(node.generators[0]) or self._calls_branching_helper(node.elt, fi)
                      or self._filter_applies_local_callable(node.generators[0], s)):
             return self._comp_as_loop(node, s, fi, depth, ch, saved)
@@ -2430,6 +2435,9 @@ class Engine:
             if hit is not None:
                 return hit
             return args[1] if len(args) == 2 else NONE
+        # dict(k=v, ...): the same value as the display {"k": v, ...}
+        if f == ("ext", "dict") and not args and kwargs and all(k != "**" for k, _ in kwargs):
+            return ("dict", tuple((const(k), v) for k, v in kwargs))
         # operator.attrgetter / itemgetter / methodcaller objects applied to a value
         if f[0] == "call" and f[1][0] == "ext" and f[1][1] in ("operator.attrgetter", "operator.itemgetter", "operator.methodcaller") \
                 and f[2] and not (f[1][1] != "operator.methodcaller" and f[3]) and len(args) == 1 and not kwargs:
@@ -2607,6 +2615,8 @@ class Engine:
             recv, args = args[0], tuple(args[1:])
             rc = self._owner_class(recv) or callee.cls.qual
             e.recv = recv
+        if f[0] == "bound" and isinstance(node, ast.Call) and not isinstance(node.func, ast.Attribute):
+            e.via_value = True
         if self._should_inline(callee, depth, e):
             return self._inline(callee, recv, rc, args, kwargs, e, node, s, fi, depth, ch)
         self._raise_point(e, s, ch, node)
@@ -2624,10 +2634,18 @@ class Engine:
             return False
         if callee.qual in getattr(self.policy, "opaque", ()):
             return False  # a rule wants to see this call as a call (it analyses the callee on its own)
-        if self.transparent(callee, e.func) and depth < 12:
+        if self._serves_caller(callee, e) and depth < 12:
             # a function the rules were not written against (extracted helper): analysed in place
             return True
         return self.policy.inline(callee, depth, e)
+
+    def _serves_caller(self, callee: FuncInfo, e: Event) -> bool:
+        if self.transparent(callee, e.func):
+            return True
+        # a bound method the rules were not written against that was handed over as a value (a callback wrapping another):
+        # whoever invokes the value runs the wrapper's body on behalf of the object that created the binding
+        return e.via_value and self.policy.transparent_helpers and self.is_unknown_helper(callee) \
+            and callee.qual not in getattr(self.policy, "opaque", ()) and callee.kind == "method"
 
     def transparent(self, callee: FuncInfo, caller: t.Optional[FuncInfo]) -> bool:
         if callee.qual in getattr(self.policy, "opaque", ()):
@@ -2660,7 +2678,7 @@ class Engine:
 
     def _inline(self, callee: FuncInfo, recv, rc, args, kwargs, e: Event, node, s: _State, fi, depth, ch):
         e.inlined = True
-        if self.transparent(callee, e.func):
+        if self._serves_caller(callee, e):
             # the call of an extracted helper is not an action of its own: rules see the helper's body instead
             e.helper = callee
             e.targets = []
